@@ -506,7 +506,9 @@ func (pg *program) generatePackage(pkgInfo *loader.PackageInfo) error {
 	generated := true
 	var undefined string
 	thisprogram := pg.program
-	for generated {
+	// The first pass sees the imported packages as they were loaded, before this run generated for them:
+	// a second pass, on the reloaded program, follows even when the first one could not generate anything.
+	for passes := 0; generated || passes < 2; passes++ {
 		pkgGen, err := newPackage(thisprogram, pkgInfo, pg.plugins, pg.autoname, pg.dedup)
 		if err != nil {
 			return err
